@@ -850,6 +850,14 @@ def gen(rng, tier):
                 elif sk % 2:
                     c['fills'] = [['Y', ['f', -0.5]], ['iterations', ['i', 0]]]
                 cases.append(c)
+    # boundaries of the conversions: int64 limits (largest / smallest value, one beyond), str fills of exactly / one more than the width
+    for cls in ('VC', 'BM'):
+        for vname, vi, vals in (('I', 1, [['i', 2 ** 63 - 1], ['i', -2 ** 63], ['i', 2 ** 63], ['i', -2 ** 63 - 1], ['f', 2.5], ['f', -0.5], ['b', True]]),
+                                ('S', 3, [['s', 'ab'], ['s', 'abc'], ['s', 'a'], ['i', 12], ['i', 123]])):
+            for v in vals:
+                base = {'cls': cls, 'old': fams[0][2](2), 'new': fams[0][2](3), 'vars': STD_VARS[vi:vi + 1], 'solved': 0, 'strict': None, 'obj_strict': False}
+                cases.append(dict(base, fill_value=None, fills=[[vname, v]]))
+                cases.append(dict(base, old=fams[0][2](1), new=fams[0][2](0), fill_value=None, fills=[[vname, v]]))
     # tuples as old / new spans; numeric aliases of labels in the new span (2001.0 for 2001: the same period under Python equality)
     tk = 0
     for old_labels in ([['i', 2000], ['i', 2001], ['i', 2002]], [['s', 'a'], ['s', 'b']]):
